@@ -14,7 +14,9 @@ RULE = ("baseline = one valid message per (class, version, modulation/NOPE, burs
         "every PAIR of fields set to each candidate value {None, lo-1, lo, lo+1, mid, hi-1, hi, hi+1, far out} "
         "(burst: None and lengths around every accepted length) is enumerated completely; Hypothesis adds random full "
         "combinations. Oracle: validate() raises ValueError <=> gen_msg() raises ValueError <=> not ref_valid; nothing "
-        "else raised; DATAInterface.send_msg emits exactly one datagram iff valid. Non-trivial: a deviated field sits "
+        "else raised; DATAInterface.send_msg emits exactly one datagram iff valid; for every point also objects with a past: filled by "
+        "parse_msg() from a datagram carrying the values (whatever the octets can hold) and re-encoded / re-sent untouched, and a valid object "
+        "encoded once and then changed in place to the point - refused / not sent iff invalid. Non-trivial: a deviated field sits "
         "on or next to a range boundary; distinct by construction (enumeration) / by case hash (Hypothesis).")
 LEVEL = "exploration"
 ASSUMPTIONS = ["only int/None field values are protocol values (other Python types are not generated)",
@@ -136,7 +138,103 @@ def oracle(m):
                         "%d datagram(s) sent for %s message %r" % (len(sent), "valid" if ok else "invalid", m))
     if ok and (sent[0][1] != ("127.0.0.1", 5802) or sent[0][0] != ("0.0.0.0", 5702)):
         raise Violation("c13:send-address", "datagram went %r -> %r" % (sent[0][0], sent[0][1]))
+    reuse_oracle(m, ok)
     return ok
+
+
+def _encodable(m):
+    """can the layout carry these values at all (so that a peer could have sent them)?"""
+    def rng(v, lo, hi):
+        return isinstance(v, int) and lo <= v <= hi
+    if m["ver"] not in (0, 1) or not rng(m["fn"], 0, 2 ** 32 - 1) or not rng(m["tn"], 0, 7):
+        return False
+    if m["cls"] == "tx":
+        return rng(m["pwr"], 0, 255) and m["burst_len"] is not None
+    if not rng(m["rssi"], -255, 0) or not rng(m["toa256"], -32768, 32767):
+        return False
+    if m["ver"] == 0:
+        return m["burst_len"] is not None
+    if not rng(m["ci"], -32768, 32767):
+        return False
+    if m["nope"]:
+        return m["burst_len"] is None
+    return (m["mod"] in MODS and rng(m["tsc_set"], 0, 3 if m["mod"] == "GMSK" else 1) and rng(m["tsc"], 0, 7)
+            and m["burst_len"] is not None)
+
+
+def _as_valid_dict(f):
+    d = dict(f)
+    b = f.get("bits") if f["cls"] == "tx" else f.get("soft")
+    d["burst_len"] = None if b is None else len(b)
+    return d
+
+
+def reuse_oracle(m, ok):
+    """the 'nothing invalid is sent' half on a message object with a past: (a) an object filled by parse_msg() from a datagram
+    carrying these values (a peer can put any value the octets can hold on the wire) and then encoded / sent again without
+    being touched; (b) a valid object that was encoded once, then got one field changed in place to the deviating value."""
+    from refs import ref_trxd
+    net, dif = Net.get()
+    if _encodable(m):
+        d = dict(m)
+        if m["cls"] == "tx":
+            d["bits"] = bytes(i & 1 for i in range(m["burst_len"]))
+        else:
+            d["soft"] = None if m["burst_len"] is None else [((i * 5) % 255) - 127 for i in range(m["burst_len"])]
+            d["nope"] = bool(m.get("nope"))
+        data = ref_trxd.encode(d, False)
+        msg = tk.new_msg(m["cls"])
+        try:
+            msg.parse_msg(bytearray(data) if m["cls"] == "rx" else data)
+            parsed = True
+        except ValueError:
+            parsed = False
+        if parsed:
+            p_ok, p_why = valid(_as_valid_dict(tk.msg_fields(msg)))
+            try:
+                msg.gen_msg(False)
+                g_ok = True
+            except ValueError:
+                g_ok = False
+            if g_ok and not p_ok:
+                raise Violation("c13:parsed-invalid-re-encoded:%s:%s" % (m["cls"], p_why),
+                                "an object filled by parse_msg() with an out-of-range %s was encoded again by gen_msg(): %r" % (p_why, m))
+            if p_ok and not g_ok:
+                raise Violation("c13:parsed-valid-refused:%s" % m["cls"], "parse_msg() then gen_msg() refuses valid %r" % (m,))
+            net.take()
+            dif.send_msg(msg)
+            sent = net.take()
+            if len(sent) != (1 if p_ok else 0):
+                raise Violation("c13:parsed-send-count:%s:%s" % (m["cls"], p_why or "none"),
+                                "%d datagram(s) sent for a parsed %s message %r" % (len(sent), "valid" if p_ok else "invalid", m))
+    # (b) a valid object, encoded once, then changed in place into m
+    base = next((b for b in baselines() if b["cls"] == m["cls"] and b["ver"] == m["ver"] and b.get("mod") == m.get("mod")
+                 and b.get("nope") == m.get("nope") and b["burst_len"] == m["burst_len"]), None)
+    if base is None or m["ver"] not in (0, 1):
+        return
+    msg = build(base)
+    try:
+        msg.gen_msg(False)
+    except ValueError:
+        return                          # (reported by the plain oracle on the baseline itself)
+    for f in (TX_FIELDS if m["cls"] == "tx" else RX_FIELDS):
+        if f in ("mod", "nope", "burst_len", "ver") or base.get(f) == m.get(f):
+            continue
+        setattr(msg, f, m[f])
+    try:
+        msg.gen_msg(False)
+        g_ok = True
+    except ValueError:
+        g_ok = False
+    if g_ok != ok:
+        raise Violation("c13:changed-in-place:%s" % m["cls"], "object encoded once as a valid message, then changed in place to %r: gen_msg() %s" % (
+            m, "encoded it" if g_ok else "refused it"))
+    net.take()
+    dif.send_msg(msg)
+    sent = net.take()
+    if len(sent) != (1 if ok else 0):
+        raise Violation("c13:changed-in-place-send-count:%s" % m["cls"], "%d datagram(s) sent after an in-place change to %s %r" % (
+            len(sent), "valid" if ok else "invalid", m))
 
 
 def near_boundary(field, val):
